@@ -183,10 +183,24 @@ func (e *Engine) callFn(st *State, fn *ssa.Function, args []Value, bind []Value,
 	fr := e.newFrame(fn, args, bind)
 	outs := e.runFrame(fr, st)
 	e.depth--
+	why := ""
+	if !mergeOK {
+		why = "not mergeable"
+	}
 	for _, o := range outs {
 		if o.st.splits != entrySplits {
+			if mergeOK {
+				why = "case split inside"
+			}
 			mergeOK = false
 		}
+	}
+	if forkDebug && len(outs) > 1 {
+		defer func() {
+			if why != "" {
+				e.note(fmt.Sprintf("unmerged x%d (%s): %s", len(outs), why, fn.String()))
+			}
+		}()
 	}
 	if mergeOK && len(outs) > 1 && !e.cfg.NoPrune {
 		// drop outcomes whose path condition is infeasible, so that merged values do not
@@ -210,12 +224,18 @@ func (e *Engine) callFn(st *State, fn *ssa.Function, args []Value, bind []Value,
 	}
 	if mergeOK && len(outs) > e.bound("merge_max", 24) {
 		mergeOK = false // merging very many outcomes costs more than it saves
+		why = "merge_max"
 	}
 	if mergeOK && len(outs) > 1 {
 		e.mergeLoss = false
+		e.lossyOK = e.bound("merge_lossy", 0) == 1
 		if m, ok := e.mergeOutcomes(entryPC, entryTape, entryObs, nPending, mark, outs); ok && !e.mergeLoss {
 			e.rep.Merged++
 			return []Outcome{m}
+		} else if !ok {
+			why = "tape/obs/pending differ"
+		} else {
+			why = "merge loss"
 		}
 	}
 	return outs
